@@ -359,6 +359,12 @@ where
         }
         self
     }
+
+    #[cfg(feature = "verif")]
+    /// Verification hook: clones of the per-chain generators, in chain order.
+    pub fn verif_chain_rngs(&self) -> Vec<SmallRng> {
+        self.chains.iter().map(|c| c.rng.clone()).collect()
+    }
 }
 
 /// Single-chain state and adaptation for NUTS.
